@@ -236,8 +236,42 @@ Qed.
 
 Lemma cc_ok_count : cc_ok (query_count qi).
 Proof. unfold query_count. apply cc_ok_bind; [apply cc_ok_walk | intros w; apply cc_ok_ret]. Qed.
+Lemma cc_ok_eat_tables : forall index rels ne l count, cc_ok (entity_at_tables index rels ne l count).
+Proof.
+  intros index rels ne l. induction l as [|tid rest IH]; intros count; [apply cc_ok_ret | rewrite q_eat_tables_cons].
+  apply cc_ok_bind; [apply cc_ok_getT | intros t].
+  destruct (ne && Nat.eqb (t_len t) 0)%bool; [apply IH|].
+  apply cc_ok_bind; [apply cc_ok_of_opt | intros mt].
+  destruct (negb mt); [apply IH|].
+  destruct (Nat.ltb _ _); [|apply IH].
+  apply cc_ok_bind; [apply cc_ok_of_opt | intros e; apply cc_ok_ret].
+Qed.
+Lemma cc_ok_eatl_go : forall index f q l count, cc_ok (q_eatl_go index f q l count).
+Proof.
+  intros index f q l. induction l as [|aid rest IH]; intros count; [apply cc_ok_fail | rewrite q_eatl_go_cons].
+  apply cc_ok_bind; [apply cc_ok_getA | intros a].
+  destruct (negb (filter_matches f (a_mask a))); [apply IH|].
+  destruct (negb (arch_has_rels a)).
+  - destruct (a_tables a) as [|t0 ?]; [apply cc_ok_fail|].
+    apply cc_ok_bind; [apply cc_ok_getT | intros t].
+    destruct (Nat.ltb _ _); [apply cc_ok_of_opt | apply IH].
+  - apply cc_ok_bind; [apply cc_ok_of_opt | intros cand].
+    apply cc_ok_bind; [apply cc_ok_eat_tables | intros r].
+    destruct r as [x|c]; [apply cc_ok_ret | apply IH].
+Qed.
 Lemma cc_ok_entity_at : forall i, cc_ok (query_entity_at qi i).
-Proof. intros i. rewrite q_entity_at_eq. apply cc_ok_bind; [apply cc_ok_walk | intros w; apply cc_ok_eat_go]. Qed.
+Proof.
+  intros i. rewrite q_entity_at_eq. apply cc_ok_bind; [apply cc_ok_getQ | intros q].
+  apply cc_ok_get_bind. intros s1 s2 HR.
+  destruct (cc_view_inv _ _ _ (HRv _ _ HR)) as (Ha & Ht & Hc & Hh & Hf & Hq).
+  destruct (q_cache q) as [addr|].
+  - rewrite Hh. apply cc_ok_app; [|exact HR].
+    apply cc_ok_bind; [apply cc_ok_of_opt | intros e].
+    apply cc_ok_bind; [apply cc_ok_eat_tables | intros r].
+    destruct r as [x|c]; [apply cc_ok_ret | apply cc_ok_fail].
+  - rewrite (cc_archetypes_eq s1 s2 q Hc Ha). apply cc_ok_app; [|exact HR].
+    apply cc_ok_bind; [apply cc_ok_getF | intros f; apply cc_ok_eatl_go].
+Qed.
 Lemma cc_ok_entity : forall d, cc_ok (query_entity d qi).
 Proof.
   intros d. unfold query_entity. apply cc_ok_bind; [apply cc_ok_getQ | intros q].
